@@ -207,7 +207,11 @@ def check_compile(ctx, ci):
         if got == {want}:
             ctx.holds(rule, comp, '%s iff %s' % (name, want), 'looks at the immediate neighbour', comp.node.lineno, clause='a')
         elif not got:
-            ctx.violation(rule, comp, name, 'the %s membership test was not found in its expected form (position at the edge or the neighbour is not a Bits)' % name, comp.node.lineno, clause='a')
+            stored = any(e.kind == 'store_attr' and canon(e.obj) == 'self' and e.name == name for p in paths for e in p.effects)
+            if stored:
+                ctx.violation(rule, comp, name, 'the %s membership test was not found in its expected form (position at the edge or the neighbour is not a Bits)' % name, comp.node.lineno, clause='a')
+            else:
+                ctx.undecided(rule, comp, name, 'Bits._compile does not store %s: the membership of the run is kept in another form' % name, comp.node.lineno, clause='a')
         else:
             ctx.violation(rule, comp, '%s iff %s' % (name, sorted(got)), 'expected %s' % want, comp.node.lineno, clause='a')
     # ---- the walk over the run
@@ -359,12 +363,19 @@ def check_unpack(ctx, ci, bits='derive'):
     fi = ci.methods.get('unpack')
     rule = 'R8-extract'
     w = repo.walker()
+    w.split_bool = True
     for p in w.paths(fi.node, cls=ci):
         if p.raises():
             continue
         gt = gtexts(p)
         st_ = [e for e in p.effects if e.kind == 'setattr' and canon(e.obj) == 'pkt' and canon(e.name) == 'self.field_name']
-        label = 'first member' if 'self.iam_first' in gt else 'later member'
+        if 'self.iam_first' in gt:
+            label = 'first member'
+        elif 'not self.iam_first' in gt:
+            label = 'later member'
+        else:
+            ctx.undecided(rule, fi, 'path [%s]' % '; '.join(sorted(gt))[:120], 'cannot tell whether this is the first member of the run or a later one (the path does not test iam_first)', fi.node.lineno, clause='c')
+            continue
         if not st_:
             ctx.violation(rule, fi, label, 'no value is stored', fi.node.lineno, clause='c')
             continue
@@ -412,11 +423,18 @@ def check_pack(ctx, ci, bits='derive'):
     fi = ci.methods.get('pack')
     rule = 'R8-confinement'
     w = repo.walker()
+    w.split_bool = True
     for p in w.paths(fi.node, cls=ci):
         if p.raises():
             continue
         gt = gtexts(p)
-        label = 'last member' if 'self.iam_last' in gt else 'earlier member'
+        if 'self.iam_last' in gt:
+            label = 'last member'
+        elif 'not self.iam_last' in gt:
+            label = 'earlier member'
+        else:
+            ctx.undecided(rule, fi, 'path [%s]' % '; '.join(sorted(gt))[:120], 'cannot tell whether this is the last member of the run or an earlier one (the path does not test iam_last)', fi.node.lineno, clause='d')
+            continue
         st_ = [e for e in p.effects if e.kind == 'setattr' and canon(e.obj) == 'pkt']
         merges = [e for e in st_ if canon(e.name) == 'self.I.field_name']
         if len(merges) != 1:
@@ -474,12 +492,20 @@ def check_init(ctx, ci):
         z = [e for e in p.effects if e.kind == 'setattr' and canon(e.name) == 'self.I.field_name']
         if 'self.iam_first' in gt:
             seen_first = True
+            own_init = [e for e in p.effects if e.kind == 'call' and canon(e.call.func) == 'self.I.init' and len(e.call.args) == 2
+                        and isinstance(e.call.args[1], ast.Dict) and not e.call.args[1].keys]
             if z and isinstance(z[0].value, ast.Constant) and z[0].value.value == 0:
                 ctx.holds(rule, fi, 'first member: shared slot := 0', 'pack merges into a defined value', z[0].lineno, clause='f')
+            elif not z and own_init:
+                ctx.holds(rule, fi, 'first member: self.I.init(packet, {})', 'the shared Int initialises its own slot with its default, 0 (Int() is built with defaults: C05 / C19 constructor rule)', own_init[0].lineno, clause='f')
             else:
                 ctx.violation(rule, fi, 'first member: %s' % [e.text() for e in z], 'the shared slot must be zeroed by the first member', fi.node.lineno, clause='f')
     if not seen_first:
-        ctx.violation(rule, fi, 'Bits.init', 'no path initialises the shared slot for the first member', fi.node.lineno, clause='f')
+        mentions = any(isinstance(n, ast.Attribute) and n.attr == 'iam_first' for n in ast.walk(fi.node))
+        if mentions:
+            ctx.violation(rule, fi, 'Bits.init', 'no path initialises the shared slot for the first member', fi.node.lineno, clause='f')
+        else:
+            ctx.undecided(rule, fi, 'Bits.init', 'the method does not test iam_first: cannot tell which path is the first member\'s', fi.node.lineno, clause='f')
 
 
 def _leaves(v):
